@@ -4,6 +4,12 @@ Runtime postcondition of `HtmlRenderer(**opts).render(Document(x))`: the indepen
 monitor of runtime/html_wf.py accepts the output (after the verbatim content of the HtmlBlock /
 HtmlSpan tokens of the parsed tree has been set aside when process_html_tokens=True), for the 8
 option combinations; plus the helper contracts of the escapers over every Unicode code point.
+
+Input families: SPEC, SPEC-mutations, ATTACK (template grammar), the directed families IMAGE-ALT
+(multi-line descriptions with hard/soft breaks, inline constructs inside alt text), AUTOLINK
+('@'-carrying URI autolinks, e-mail autolinks over all local-part characters), ATTR-CROSS (every
+attribute sink x control characters / percent-encodings / references, in quote / list / lazy
+contexts, ordered-list starts, table alignment rows), GENERATED (runtime/mdgen.py documents), ALPHA.
 """
 import html as _html
 import itertools
@@ -141,7 +147,8 @@ def classify(verdict, detail):
     # src is the first attribute the renderer writes into <img>; alt and title come after it
     if z.get('tag') == 'img' and z.get('attr') not in ('alt', 'title'):
         return 'image-src-unescaped'
-    if z.get('tag') == 'a' and z.get('attr') == 'href' and 'href="mailto:' in detail['output']:
+    if z.get('tag') == 'a' and z.get('attr') == 'href' and (
+            'href="mailto:' in detail['output'] or 'mailto:' in z.get('near', '')):
         if z['code'] == 'attr-amp':
             return 'autolink-mailto-target-raw-amp'
         return 'autolink-mailto-target-unescaped'
@@ -183,6 +190,7 @@ def _run_inputs(job, optlist=OPTS):
            'failures': [], 'samples': []}
     fails = {}
     rr = _R()
+    confirmed = 0
     try:
         for opts in optlist:
             for x in inputs:
@@ -192,9 +200,13 @@ def _run_inputs(job, optlist=OPTS):
                 if nt:
                     res['distinct_nontrivial'] += 1
                 if verdict != 'ok':
-                    # confirm with a fresh renderer so that history cannot be the cause
-                    verdict, detail, _ = _eval(rr, x, opts, fresh=True)
-                    rr.close()
+                    # confirm with a fresh renderer so that history cannot be the cause (the first
+                    # 40 failures of a job only: constructing renderers is slow, and a failure is
+                    # reported either way)
+                    confirmed += 1
+                    if confirmed <= 40:
+                        verdict, detail, _ = _eval(rr, x, opts, fresh=True)
+                        rr.close()
                     if verdict == 'ok':
                         verdict, detail = 'html-wf', {'violation': {
                             'code': 'history-dependent', 'pos': 0, 'tag': None, 'attr': None,
